@@ -166,6 +166,10 @@ class SimOps:
         if a_ctrl is None:
             a_ctrl = np.zeros((len(circuit.lines)+3, 3), dtype=np.int32)  # add 3 for zero, tmp, tmp2
             a_ctrl[:,0] = -1
+        elif len(a_ctrl) < len(circuit.lines)+3:  # documented shape has one row per line: nothing to accumulate for zero, tmp, tmp2
+            pad = np.zeros((len(circuit.lines)+3-len(a_ctrl), 3), dtype=np.int32)
+            pad[:,0] = -1
+            a_ctrl = np.concatenate([a_ctrl, pad])
 
         # special locations and offsets in c_locs/c_caps
         self.zero_idx = len(circuit.lines)
